@@ -193,7 +193,11 @@ def sc6(F, R):
                   "decoder gets another string): legally formatted data — blanks, line breaks or dashes between the bytes — is rejected "
                   "or mis-read although the direct call succeeds" % e.name,
                   {"decoded": show(e.args[0], e.body)[:240], "validated": [show(t, e.body)[:240] for t in tested]})
-    R.floor("SC6", "decoding calls guarded by a successful regex test", n, 1, c.root.where())
+    # a conditional rule: a parser that validates by other means than a regex test on a cleaned copy has no instance of it (its
+    # decoder's own errors are covered by SC4); nothing to fail closed on
+    R.note("SC6: %d decoding call(s) guarded by a successful regex test" % n)
+    if n == 0:
+        R.ok("SC6", c.root.where(), "no decoder runs under a regex test of a derived text: nothing to agree")
 
 
 def sc1(F, R):
